@@ -251,6 +251,7 @@ class Gen:
     def block_map(self, n, ind):
         r = self.r
         lines = []
+        open_key = False     # the previous entry was a `?` key whose `:` line was left out
         for k, v in n['pairs']:
             lines += self.comment_lines(ind)
             kt = self.flow_text(k) if self.is_flow(k) else None
@@ -262,24 +263,29 @@ class Gen:
                 if k['k'] == 'N':
                     if pk:
                         lines.append(' ' * ind + '? ' + pk)
-                    elif r.chance(1, 2) or (v['k'] == 'N' and not pv):
+                    elif r.chance(1, 2) or (v['k'] == 'N' and not pv) or open_key:
+                        # (a bare `: value` line would otherwise complete the previous `?` entry)
                         lines.append(' ' * ind + '?')
                 elif self.is_flow(k):
                     lines.append(' ' * ind + '? ' + self.flow_text(k))
                 else:
                     lines.append(' ' * ind + '?')
                     lines += self.block(k, ind + r.choice([1, 2, 3]))
+                open_key = False
                 if v['k'] == 'N':
                     if pv:
                         lines.append(' ' * ind + ': ' + pv)
                     elif r.chance(1, 2):
                         lines.append(' ' * ind + ':')
+                    else:
+                        open_key = True
                 elif self.is_flow(v):
                     lines.append(' ' * ind + ': ' + self.flow_text(v))
                 else:
                     lines.append(' ' * ind + ':')
                     lines += self.block(v, ind + r.choice([1, 2, 3]))
                 continue
+            open_key = False
             if simple and v['k'] == 'N':
                 sep = ' :' if k['k'] == 'A' else ':'
                 lines.append(' ' * ind + kt + sep + (' ' + pv if pv else '') + (' # c' if r.chance(1, 10) else ''))
